@@ -2,7 +2,7 @@
 (* Deterministic scores (C05): every obs/fcst vector of a small universe.    *)
 (* TLC checks PerfectAttains / NeverBetter / AggregatorConsistency and emits *)
 (* the expected value of every metric (and metric x aggregator) as an Expr.  *)
-EXTENDS KnownFindings, TLC, Json
+EXTENDS KnownFindings, TLC, Json, SequencesExt
 CONSTANTS Universe     \* "small" | "full" | "missing" | "len4"
 VARIABLES v, phase
 vars == <<v, phase>>
@@ -30,6 +30,7 @@ Emit ==
                  agg |-> [m \in {"mae", "bias", "diff", "ratio", "rmse", "cmae"} |-> [a \in AggNames |-> Det(m, P, a, Zero)]],
                  quant |-> [m \in {"mae", "bias", "rmse"} |-> [k \in DOMAIN QLevels |-> Det(m, P, "quantile", QLevels[k])]],
                  qlevels |-> [k \in DOMAIN QLevels |-> J(QLevels[k])],
+                 shiftF |-> SetToSeq(FcstShiftInvariant), shiftBoth |-> SetToSeq(CommonShiftInvariant),
                  within |-> [bt \in {"below", "below=", "above", "above=", "within", "=within="} |-> WithinPct(P, bt, R(1), R(2))],
                  impl |-> [alphaindex |-> Alphaindex_AsImplemented(P), leps |-> Leps_AsImplemented(P)]]))
 
@@ -43,4 +44,5 @@ InvPerfectAgg == \A m \in {"bias", "diff"} : PerfectAttains(m, O(P))
 InvNeverBetter == \A m \in DetMetrics : NeverBetter(m, P)
 InvAggConsistency == AggregatorConsistency(P)
 InvOrder == OrderLemmas(Err(P))
+InvShift == ShiftLemmas(P)
 =============================================================================
